@@ -499,7 +499,10 @@ def _sample_goals(ctx, rng):
         add(f"set_vol2d V={V} amps={amps}", f"set_vol2d {R_(V)} {L}", d2.radius)
         phis, elems, total = _line_elements(d)
         if phis is None:
-            ctx.broken.append("surface_area: could not observe the line elements (np.hypot not called exactly once)")
+            # the summands are internal to surface_area; when they cannot be observed the tie of line2d is the
+            # numerical comparison of surface_area with the arc length (oracle below)
+            ctx.notes.append("surface_area: line elements not observable (np.hypot not called exactly once); "
+                             "line2d sample goals skipped")
         else:
             if not abs(total - Rr * float(np.sum(elems)) * (2 * math.pi / len(elems))) <= 1e-12 * total:
                 ctx.broken.append("surface_area is not radius * sum(line elements) * dphi")
@@ -545,24 +548,32 @@ def _sample_goals(ctx, rng):
     nsh = 12
     shards = [(f"c13_{i}", goals[i::nsh]) for i in range(nsh)]
     with ThreadPoolExecutor(nsh) as ex:
-        list(ex.map(lambda a: vlib.sample_goals(ctx, a[0], req, a[1], ["w_one; perturbed_prep"]), shards))
+        res = list(ex.map(lambda a: vlib.sample_goals(ctx, a[0], req, a[1], ["w_one; perturbed_prep"]), shards))
+    return [g for r in res for g in r]
 
 
 def check(ctx: vlib.Ctx) -> int:
     import warnings
     warnings.filterwarnings("ignore")
     rng = random.Random(ctx.seed)
-    vlib.prove(ctx, ["Proofs/C13.vo", "Proofs/PerturbedSamples.vo", "Model/Samples.vo"],
-               gens=["Gen_spherical", "Gen_spherical_index", "Gen_perturbed"])
-    ctx.tie.append("translator (Gen_perturbed, Gen_spherical, Gen_spherical_index regenerated from the source tree) "
-                   "+ interval sample goals at seeded angles; numerical correspondence of volume / surface / "
-                   "positions / triangulation / curvature with independent quadratures and finite differences")
-    gen_ok = not any("translator failed closed" in n for n in ctx.notes)
-    if gen_ok:
+    gens = ["Gen_spherical", "Gen_spherical_index", "Gen_perturbed"]
+    ok, fresh = vlib.prove_with_fallback(ctx, ["Proofs/C13.vo", "Proofs/PerturbedSamples.vo", "Model/Samples.vo"], gens=gens)
+    ctx.tie.append("interval sample goals at seeded angles: every definition of the "
+                   + ("regenerated" if fresh else "golden") + " Gen_perturbed evaluated inside Coq against the "
+                   "implementation's values; numerical correspondence of volume / surface / positions / triangulation / "
+                   "curvature with independent quadratures and finite differences")
+    if ok:
+        # the goals mention only Coq names of Gen_perturbed (fresh or golden text) and values computed by the
+        # implementation: nothing from the translator's Python side is needed
         try:
-            _sample_goals(ctx, rng)
+            failed = _sample_goals(ctx, rng)
         except Exception as e:  # the implementation raised on a valid droplet: a broken obligation
+            failed = []
             ctx.broken.append(f"sample-goal inputs could not be evaluated by the implementation: {type(e).__name__}: {e}")
+        if not fresh:
+            for label, expr, val in failed[:3]:
+                ctx.violations.append({"what": "golden perturbed-droplet model and implementation differ", "found": True,
+                                       "input": {"sample": label, "coq_expression": expr[:2000], "implementation_value": val}})
     big = bool(ctx.broken)
     try:
         fails = oracle(rng, ctx.scale(6, 60) * (2 if big else 1), ctx, heavy_count=ctx.scale(2, 12))
